@@ -545,6 +545,9 @@ func Run(pid, tier string, seed uint64, driver, outPath, corpusDir string, only 
 					st.UnsupportedWhy = map[string]int{}
 				}
 				st.UnsupportedWhy[clip(m, 60)]++
+				if os.Getenv("VERIF_DBG_UNSUP") != "" && strings.Contains(m, os.Getenv("VERIF_DBG_UNSUP")) {
+					fmt.Fprintln(os.Stderr, "UNSUP", m, clip(c.Cmd.String(), 2000), "META", clip(metaS, 3000))
+				}
 				if strings.HasPrefix(m, "(unsupported model-driver-died") && len(res.DriverDeaths) < 10 {
 					res.DriverDeaths = append(res.DriverDeaths, clip(c.Cmd.String(), 300)+" | meta "+clip(metaS, 12000))
 				}
